@@ -996,6 +996,7 @@ func c13Surroundings(c *Check) {
 	for f := range sub.funcs {
 		c.SawFunc(f)
 	}
+	c05ADPerServer(c, "R5d") // DANE believes TLSA / address answers exactly as far as their AD bit goes
 	c.Rule("R5c", "extended resolver: an AuthenticatedData flag read inside a loop over the answers of a response belongs to that same response", 2)
 	pk := p.Pkg("framework/dns")
 	if pk == nil {
